@@ -138,6 +138,26 @@ Theorem C05_holds : forall c, valid c -> holds c (run_model c) = [].
 Proof. exact holds_model. Qed.
 Print Assumptions C05_holds.
 
+(* [valid c] is by definition the boolean [validb c] (C05/Entry.v) being true: every hypothesis of
+   C05_holds is decidable from the case.  The driver reports validb for every evaluated case (5th item of its
+   answer); where it is 1 the theorem applies to exactly that case. *)
+Theorem C05_validb_valid : forall c, validb c = true -> valid c.
+Proof. intros c H. exact H. Qed.
+Print Assumptions C05_validb_valid.
+
+Theorem C05_covered_cases : forall c, validb c = true -> holds c (run_model c) = [].
+Proof. intros c H. apply C05_holds. apply C05_validb_valid. exact H. Qed.
+Print Assumptions C05_covered_cases.
+
+(* the same for histories: every step within the hypotheses *)
+Definition valid_historyb (h : list case) : bool := forallb validb h.
+Theorem C05_covered_histories : forall h, valid_historyb h = true -> holds_history h (run_history h) = [].
+Proof.
+  intros h H. apply holds_history_model. unfold valid_historyb in H. rewrite forallb_forall in H.
+  apply Forall_forall. exact H.
+Qed.
+Print Assumptions C05_covered_histories.
+
 (* the modelled handlers are stateless: in a history of requests on one handler object every
    step is decided as if it were the only one - the i-th observation is the single-request
    observation of the i-th request, whatever came before (in particular: a request for system A,
